@@ -65,3 +65,25 @@ def c15(ctx):
                     trace_module="Trace_C15", sigfn=V.default_sig,
                     assumptions=["TLC/SANY/Apalache and the JVM", "module Wide (checked against TLC integers by MC_Wide)",
                                  "the harness logs the real return values of gots.PTS methods"])
+
+
+# ---------------------------------------------------------------- C01
+
+@prop("C01", "Trace_C01")
+def c01(ctx):
+    thorough = ctx.tier == "thorough"
+    V.mc(ctx, "MC_C01", cfg="MC_C01_thorough.cfg" if thorough else "MC_C01.cfg")
+    tab = os.path.join(ctx.dir, "c01.tab.ndjson")
+    V.tlc_emit(ctx, "Gen_C01", tab)
+    rep = V.table_compare(ctx, tab)
+    ctx.exhaustive = bool(rep.get("exhaustive"))
+    summ = V.gen_traces(ctx, shards=8)
+    V.validate(ctx, "Trace_C01", summ, V.default_sig)
+    return V.finish(ctx, "model_checking",
+                    rule="B1: TLC emits the complete getter tables of TsHeader (65 536 (b1,b2) rows, 256 b3 rows); the harness enumerates every value of the "
+                         "affected header byte(s) x every in-range field value against the real getters/setters/CC helpers (body random) and compares via table look-ups only. "
+                         "B3: random packets x random setter/CC-helper sequences with all 188 bytes before/after, validated by TLC as TsHeader!Set steps. "
+                         "class = (operation, field, value class, changed/unchanged) or table block",
+                    trace_module="Trace_C01", sigfn=V.default_sig,
+                    assumptions=["TLC/SANY and the JVM", "TsHeader's field table is ISO/IEC 13818-1 Table 2-2 (cross-checked against a mask/shift reading by MC_C01)",
+                                 "the harness logs real return values; packet body bytes are sampled, header byte(s) x value space is enumerated"])
